@@ -4,6 +4,7 @@ import (
 	"fmt"
 	"go/token"
 	"go/types"
+	"strings"
 
 	"golang.org/x/tools/go/ssa"
 
@@ -14,7 +15,7 @@ func init() {
 	register(&Rule{
 		ID:    "C10",
 		Title: "State snapshots and checkpoints are complete",
-		Pkgs:  []string{"data/trie", "data/trie/hashesHolder", "data/state"},
+		Pkgs:  []string{"data/trie", "data/trie/hashesHolder", "data/trie/factory", "data/state"},
 		Explain: "Decides structural conditions of completeness. (S1 pairing) TakeSnapshot/SetCheckpoint enter pruning-buffering mode before enqueueing; takeSnapshot leaves it exactly once on every path (deferred); " +
 			"SnapshotState/setStateCheckpoint enter once and their goroutine exits once. (S2 traversal) commitSnapshot/commitCheckpoint of branch nodes visit every child slot (resolve-if-collapsed then recurse, errors checked, " +
 			"no exit other than exhaustion, error, or ShouldCommit==false), extension nodes resolve and recurse, and every node type writes itself to the target DB (error checked) before reporting success; leaves are " +
@@ -27,6 +28,7 @@ func init() {
 }
 
 func runC10(c *core.Ctx) {
+	c10HolderPerStorageManager(c)
 	c10DropOnlyUpToAFoundRoot(c)
 	const tp = "data/trie"
 	const sp = "data/state"
@@ -542,4 +544,35 @@ func foundThroughFlag(cd core.Cond, want func(core.Cond) bool) bool {
 		}
 	}
 	return any
+}
+
+// c10HolderPerStorageManager: the holder of not-yet-checkpointed hashes belongs to one trie storage
+// manager: trieCreator.Create hands each manager a holder created in that very call. A holder shared
+// by the tries of one factory lets a snapshot of one trie drop the pending entries of another.
+func c10HolderPerStorageManager(c *core.Ctx) {
+	fn := anchorM(c, "data/trie/factory", "trieCreator", "Create")
+	if fn == nil {
+		return
+	}
+	n := 0
+	core.Instrs(fn, func(in ssa.Instruction) {
+		st, ok := in.(*ssa.Store)
+		if !ok {
+			return
+		}
+		fa, ok := st.Addr.(*ssa.FieldAddr)
+		if !ok || core.FieldOfAddr(fa).Name() != "CheckpointHashesHolder" {
+			return
+		}
+		n++
+		fresh := false
+		v := core.Strip(st.Val)
+		if call, isCall := v.(*ssa.Call); isCall && call.Call.StaticCallee() != nil && strings.HasPrefix(call.Call.StaticCallee().Name(), "New") {
+			fresh = true
+		}
+		c.Check(fresh, "C10/holder-per-storage-manager", fmt.Sprintf("trieCreator.Create/holder#%d", n), st.Pos(),
+			"the holder given to the storage manager is created in this call",
+			"the checkpoint hashes holder given to a new storage manager is "+core.ExprKey(v)+", not an object created in this call: the tries of one factory share it, and TakeSnapshot on one trie drops the pending entries of the others, whose next checkpoint then skips nodes that are in no snapshot storage")
+	})
+	c.Floor("C10/holder-per-storage-manager", 1)
 }
